@@ -22,6 +22,7 @@ ops   new:<neg>            client options: neg=1 negotiates versions (default cl
       call:<c>:<typ>:<pay> SendMessage by caller c ;  nw:<c>:<typ>:<pay> SendNoWait ; shutdown:<c> Shutdown
       cancel:<c>  close    context of c ends ; Client.Close()
       w:<n>  r:<c>  rc  z  waits: the peer has received n frames / call c returned / Connect returned / short pause
+      n:<k>                after a pause, the peer has received no more than k frames (else `early-write@<op index>`)
 reply `wr=[typ:id:pay …] res=[c=reply:typ:pay|nil|closed|ctx|err …] conn=closed|fail|run close=[nil|closed …]`,
       or `stuck@<op index>` when a wait can never be satisfied, or `nondet`.
 -/
@@ -36,6 +37,7 @@ structure Sim where
   shut : List Nat := []
   shutRes : List (Nat × String) := []
   stuck : Option Nat := none
+  early : Option Nat := none
 
 def negGSV : Nat := 900
 def negSPV : Nat := 901
@@ -124,6 +126,7 @@ def act (m : Sim) (a : Act) : Sim := { m with s := step m.s a }
 inductive Op where
   | env (f : Sim → Sim) (needQuiet : Bool)
   | wait (cond : Sim → Bool)
+  | atMost (k : Nat)
   | pause
 
 def isDone (m : Sim) (c : Nat) : Bool :=
@@ -144,6 +147,8 @@ def cutFrame (k : Nat) (f : Frame) (m : Sim) : Sim :=
 def parseOp (m : Sim) (t : String) : Option Op :=
   match t.splitOn ":" with
   | ["new", n] => some (.env (fun m => { m with neg := n == "1" }) false)
+  | ["new", n, _] => some (.env (fun m => { m with neg := n == "1" }) false)
+  | ["n", k] => k.toNat?.map (fun k => .atMost k)
   | ["start"] => some (.env (fun m => act m .connStart) false)
   | ["pf", typ, id, ok, big] =>
     match natArgs [typ, id] with
@@ -197,6 +202,10 @@ def play (mode : Nat) : List String → Nat → Sim → Option Sim
       match runUntil (mode == 1) cond fuel m with
       | some m1 => play mode rest (i + 1) m1
       | none => some { m with stuck := some i }
+    | some (.atMost k) =>
+      let m1 := settle (mode == 1) fuel m
+      if m1.s.written.length ≤ k then play mode rest (i + 1) (if mode == 2 then m else m1)
+      else some { m with early := some i }
     | some .pause => play mode rest (i + 1) m
 
 def showRes (m : Sim) (c : Nat) : String :=
@@ -211,9 +220,10 @@ def showRes (m : Sim) (c : Nat) : String :=
     | _ => "run"
 
 def showSim (m : Sim) : String :=
-  match m.stuck with
-  | some i => s!"stuck@{i}"
-  | none =>
+  match m.stuck, m.early with
+  | some i, _ => s!"stuck@{i}"
+  | _, some i => s!"early-write@{i}"
+  | none, none =>
     let wr := " ".intercalate (m.s.written.map (fun w => s!"{w.f.typ}:{w.f.id}:{w.f.pay}"))
     let res := " ".intercalate (m.cs.map (fun c => s!"{c}={showRes m c}"))
     let conn := match m.s.conn with
